@@ -22,9 +22,10 @@ func keyHas(subs ...string) func(string) bool {
 }
 
 func init() {
-	prop("C01", []string{"FILTERED", "MGETSORT", "NOROWDROP", "GETNIL", "BYTESFRESH", "DISPATCH", "TWINPRIM", "PRIMWIRE", "OPMAPS", "ASTIMMUT", "ROWINDEX", "EVALBOTH", "STICKYFLAG", "REORDERGUARD", "FOLDKIND", "FOLDERR", "FOLDFLAGS", "ROWCARRY"},
-		"Structural necessary conditions of C01, for every access path and both iteration modes: FILTERED (a pair leaves a scan only under the true result of the full filter applied to that same pair), NOROWDROP (no loop over a fetched batch drops already-consumed rows), MGETSORT (point reads are returned in sorted key order), GETNIL (a stored pair with an empty value is a pair), BYTESFRESH (evaluation never appends into memory it did not allocate, so stored values come back unmodified), DISPATCH/TWINPRIM/PRIMWIRE/OPMAPS (each operator the user writes is routed, in both modes, to the Go primitive the documentation names, with the same operator literal and operand order; conversion/string functions reach their documented primitives), ASTIMMUT (evaluation does not mutate the expression tree, so repetitions agree). ROWINDEX/ROWCARRY (a vector operator reads row-dependent operands per row, never from a fixed row of the chunk nor from a value computed for an earlier row and carried along), EVALBOTH (vector operators evaluate both operands), STICKYFLAG with FOLDKIND/FOLDERR/FOLDFLAGS/REORDERGUARD (the predicate that is executed is the predicate that was written: the rewriter's structural side conditions, shared with C04).",
+	prop("C01", []string{"FILTERED", "MGETSORT", "NOROWDROP", "GETNIL", "BYTESFRESH", "DISPATCH", "TWINPRIM", "PRIMWIRE", "OPMAPS", "ASTIMMUT", "ROWINDEX", "EVALBOTH", "STICKYFLAG", "REORDERGUARD", "FOLDKIND", "FOLDERR", "FOLDFLAGS", "ROWCARRY", "OP2TABLE"},
+		"Structural necessary conditions of C01, for every access path and both iteration modes: FILTERED (a pair leaves a scan only under the true result of the full filter applied to that same pair), NOROWDROP (no loop over a fetched batch drops already-consumed rows), MGETSORT (point reads are returned in sorted key order), GETNIL (a stored pair with an empty value is a pair), BYTESFRESH (evaluation never appends into memory it did not allocate, so stored values come back unmodified), DISPATCH/TWINPRIM/PRIMWIRE/OPMAPS (each operator the user writes is routed, in both modes, to the Go primitive the documentation names, with the same operator literal and operand order; conversion/string functions reach their documented primitives), ASTIMMUT (evaluation does not mutate the expression tree, so repetitions agree). ROWINDEX/ROWCARRY (a vector operator reads row-dependent operands per row, never from a fixed row of the chunk nor from a value computed for an earlier row and carried along), EVALBOTH (vector operators evaluate both operands), STICKYFLAG with FOLDKIND/FOLDERR/FOLDFLAGS/REORDERGUARD (the predicate that is executed is the predicate that was written: the rewriter's structural side conditions, shared with C04). OP2TABLE(query) (the text that is lexed is the text the caller wrote: literals are not rewritten before parsing).",
 		"The end-to-end row set needs evaluation of predicates on values; duplicates from repeated/overlapping IN literals and literal-on-the-left comparisons are not structurally decidable (DESIGN.md §6).")
+	propTable["C01"].KeyFilter["OP2TABLE"] = keyHas("|query|")
 	propTable["C01"].KeyFilter["NOROWDROP"] = keyHas("ScanPlan", "MultiGetPlan", "ProjectionPlan")
 
 	prop("C02", []string{"PLANMAP", "ROUTE", "NARROWONLYKEY", "ROLECHAIN", "FILTERED", "RMGUARD", "NOROWDROP", "GETNIL", "RANGEALG", "STICKYFLAG", "PREFIXALG", "SCANALG", "ATOMALG"},
@@ -36,12 +37,12 @@ func init() {
 	propTable["C02"].KeyFilter["STICKYFLAG"] = keyHas("FilterOptimizer")
 	propTable["C02"].KeyFilter["NOROWDROP"] = keyHas("ScanPlan", "MultiGetPlan")
 
-	prop("C03", []string{"NOROWDROP", "CONSUMED", "FETCHLOOPEND", "CACHECOPY", "ADJUSTCALL", "ARITY", "LISTCOVER", "BODYKIND", "ASTIMMUT", "DISPATCH", "TWINPRIM", "LIMITGATE", "ERRPROP", "EVALBOTH", "FRESHROWS", "ROWINDEX", "ROWCARRY", "ADJUSTCOVER"},
-		"Structural necessary conditions of C03 (agreement of the row and batch twins): DISPATCH/TWINPRIM (both modes route every operator to corresponding helpers reaching the same primitives with the same literals), BODYKIND (row and vector bodies box the same kinds), ARITY (both modes apply both arity tests), LISTCOVER (both modes handle the same list representations), NOROWDROP/CONSUMED/LIMITGATE/FETCHLOOPEND (batch loops neither drop consumed rows, nor emit skipped ones, nor bypass the limit, nor spin), CACHECOPY/ADJUSTCALL/ASTIMMUT (the chunk cache and the tree are not corrupted by in-place vector operators), ERRPROP on both twins of every plan. EVALBOTH (no batch-only short circuit), ROWINDEX/ROWCARRY (no batch-only reuse of row 0 or of an earlier row's operand), FRESHROWS (batch results never alias plan-owned buffers that the next call rewrites). ADJUSTCOVER (no by-position cache entry of the unfiltered chunk survives filtering).",
+	prop("C03", []string{"NOROWDROP", "CONSUMED", "FETCHLOOPEND", "CACHECOPY", "ADJUSTCALL", "ARITY", "LISTCOVER", "BODYKIND", "ASTIMMUT", "DISPATCH", "TWINPRIM", "LIMITGATE", "ERRPROP", "EVALBOTH", "FRESHROWS", "ROWINDEX", "ROWCARRY", "ADJUSTCOVER", "ROWCACHE", "FILTERED"},
+		"Structural necessary conditions of C03 (agreement of the row and batch twins): DISPATCH/TWINPRIM (both modes route every operator to corresponding helpers reaching the same primitives with the same literals), BODYKIND (row and vector bodies box the same kinds), ARITY (both modes apply both arity tests), LISTCOVER (both modes handle the same list representations), NOROWDROP/CONSUMED/LIMITGATE/FETCHLOOPEND (batch loops neither drop consumed rows, nor emit skipped ones, nor bypass the limit, nor spin), CACHECOPY/ADJUSTCALL/ASTIMMUT (the chunk cache and the tree are not corrupted by in-place vector operators), ERRPROP on both twins of every plan. EVALBOTH (no batch-only short circuit), ROWINDEX/ROWCARRY (no batch-only reuse of row 0 or of an earlier row's operand), FRESHROWS (batch results never alias plan-owned buffers that the next call rewrites). ADJUSTCOVER (no by-position cache entry of the unfiltered chunk survives filtering). ROWCACHE/FILTERED (row mode does not reuse per-row cache entries of another row and returns only filtered pairs, as batch mode does).",
 		"Equality of computed values and the refill arithmetic beyond these clauses need execution.")
 
-	prop("C04", []string{"FOLDKIND", "FOLDERR", "REORDERGUARD", "FOLDFLAGS", "BODYKIND", "STICKYFLAG"},
-		"Structural necessary conditions of C04: FOLDKIND (a folded literal node has the kind of the value it was folded from and is built from the typed value, not from text), FOLDERR (folding happens only when evaluation succeeded), REORDERGUARD (re-association only for + and * chains with the same operator inside and outside), BODYKIND (folded function calls box the kind their registry row declares). STICKYFLAG (a call is folded only if every argument is a literal).",
+	prop("C04", []string{"FOLDKIND", "FOLDERR", "REORDERGUARD", "FOLDFLAGS", "BODYKIND", "STICKYFLAG", "ASTIMMUT"},
+		"Structural necessary conditions of C04: FOLDKIND (a folded literal node has the kind of the value it was folded from and is built from the typed value, not from text), FOLDERR (folding happens only when evaluation succeeded), REORDERGUARD (re-association only for + and * chains with the same operator inside and outside), BODYKIND (folded function calls box the kind their registry row declares). STICKYFLAG (a call is folded only if every argument is a literal). ASTIMMUT (a folded constant node is not used as mutable scratch space by the evaluator).",
 		"Numeric equality of folded and unfolded evaluation and the truth table of the Boolean simplifier need evaluation (DESIGN.md §6).")
 
 	propTable["C04"].KeyFilter["STICKYFLAG"] = keyHas("ExpressionOptimizer")
@@ -55,8 +56,8 @@ func init() {
 		"The panic and non-termination classes whose absence is visible in the shape of the code: ASSERT (no unchecked type assertion without a dominating test or a checked side condition), ARITY (no body is called with fewer arguments than it indexes), DIVGUARD (integer division guarded), USERIDX (slices/indexes driven by user numbers or error offsets are bounded against the sliced value's length and ordered), BODYKIND (the constant folder's assertions are safe), ADJUSTCALL (chunk cache indexes stay in range), FETCHLOOPEND (every fetch loop stops at end of stream), ERRPROP (storage errors are values). EVALBOTH (the chunk cache always holds the current chunk's alias values before the scan re-indexes it). ADJUSTCOVER (a stale per-chunk entry is longer than the filtered chunk: index out of range in the projection).",
 		"General index bounds, nil dereference, alias cycles (stack exhaustion) and termination of other loops are runtime quantities (DESIGN.md §6).")
 
-	prop("C07", []string{"ASSERT", "CMPDIR", "ORDERELIDE", "ORDERDEFAULT", "DRAINALL", "MGETSORT", "NOROWDROP"},
-		"Structural necessary conditions of C07: ASSERT on the comparators (ORDER BY cannot crash on mixed kinds), CMPDIR (each comparator returns -1 exactly on l<r, resp. l>r when reversed, compares integers as integers, and Less maps negative to true with the heap's operand order), ORDERELIDE (the sort is skipped only for a lone `order by key asc` without aggregates, relying on MGETSORT/cursor order), ORDERDEFAULT (each order field gets its own direction, ASC by default), DRAINALL/NOROWDROP (every child row is pushed exactly once and popped while pos < total).",
+	prop("C07", []string{"ASSERT", "CMPDIR", "ORDERELIDE", "ORDERDEFAULT", "DRAINALL", "MGETSORT", "NOROWDROP", "FRESHROWS"},
+		"Structural necessary conditions of C07: ASSERT on the comparators (ORDER BY cannot crash on mixed kinds), CMPDIR (each comparator returns -1 exactly on l<r, resp. l>r when reversed, compares integers as integers, and Less maps negative to true with the heap's operand order), ORDERELIDE (the sort is skipped only for a lone `order by key asc` without aggregates, relying on MGETSORT/cursor order), ORDERDEFAULT (each order field gets its own direction, ASC by default), DRAINALL/NOROWDROP (every child row is pushed exactly once and popped while pos < total). FRESHROWS (the sort keeps rows of all child batches: they must own their storage).",
 		"That the comparator is a total order per type and that heap order equals sorted order need execution.")
 	propTable["C07"].KeyFilter["ASSERT"] = keyHas("orderColumnsRow", "FinalOrderPlan")
 	propTable["C07"].KeyFilter["NOROWDROP"] = keyHas("FinalOrderPlan")
@@ -88,9 +89,10 @@ func init() {
 	propTable["C11"].KeyFilter["CONSUMED"] = keyHas("(*LimitPlan)")
 	propTable["C11"].KeyFilter["LIMITMAP"] = keyHas("LimitPlan", "parse|")
 
-	prop("C12", []string{"EXECONCE", "WRITEONCE", "PUTKEYFLOW", "KWFLAGS", "MUTSITE", "CHILDVISIT", "STMTLIST"},
-		"Structural necessary conditions of C12: EXECONCE (writes happen only while executed == false, which is set on every path after they start and reset only by Init), WRITEONCE (one storage write per PUT/REMOVE, outside any loop, with every expression evaluated before it), PUTKEYFLOW (each value expression sees its own pair's evaluated key; pairs reach BatchPut in statement order, untouched by any other call), KWFLAGS and CHILDVISIT(Validate) (the static restrictions are wired and every key/value expression is checked), MUTSITE(e) (PUT only puts, REMOVE only deletes). STMTLIST (the write plans receive the statement's own pair/key list: nothing is filtered out, so every pair is evaluated and a failing one fails the statement).",
+	prop("C12", []string{"EXECONCE", "WRITEONCE", "PUTKEYFLOW", "KWFLAGS", "MUTSITE", "CHILDVISIT", "STMTLIST", "ROWCACHE"},
+		"Structural necessary conditions of C12: EXECONCE (writes happen only while executed == false, which is set on every path after they start and reset only by Init), WRITEONCE (one storage write per PUT/REMOVE, outside any loop, with every expression evaluated before it), PUTKEYFLOW (each value expression sees its own pair's evaluated key; pairs reach BatchPut in statement order, untouched by any other call), KWFLAGS and CHILDVISIT(Validate) (the static restrictions are wired and every key/value expression is checked), MUTSITE(e) (PUT only puts, REMOVE only deletes). STMTLIST (the write plans receive the statement's own pair/key list: nothing is filtered out, so every pair is evaluated and a failing one fails the statement). ROWCACHE(PutPlan/RemovePlan) (one context is not shared between the pairs of a statement without being cleared, so a value cached for one pair is not seen by the next).",
 		"The store contents after the write depend on the caller's Storage.")
+	propTable["C12"].KeyFilter["ROWCACHE"] = keyHas("PutPlan", "RemovePlan")
 	propTable["C12"].KeyFilter["MUTSITE"] = keyHas("MUTSITE|e|", "MUTSITE|c|")
 	propTable["C12"].KeyFilter["CHILDVISIT"] = keyHas("Validate")
 
@@ -116,7 +118,7 @@ func init() {
 		"Structural necessary conditions of C17: POSPROV (every position given to an error or stored in a node is -1, 0, a token offset or another node's position, never computed; Token.Pos is written only by the lexer), OP2TABLE (token offsets are offsets into the caller's text), USERIDX (the renderer's window slices are bounded by the rendered text's own length and relate the offset to it).",
 		"Caret alignment arithmetic is string arithmetic (DESIGN.md §6).")
 	propTable["C17"].KeyFilter["OP2TABLE"] = keyHas("|query|", "|pos")
-	propTable["C17"].KeyFilter["USERIDX"] = keyHas("outputQueryAndErrPos")
+	propTable["C17"].KeyFilter["USERIDX"] = keyHas("outputQueryAndErrPos", "generatePads")
 
 	prop("C18", []string{"PLANMAP", "MUTSITE", "ROLECHAIN", "REGIONSTICKY", "NARROWONLYKEY", "ROUTE", "RANGEALG", "PREFIXALG", "ERRPROP", "SCANALG", "ATOMALG"},
 		"Structural necessary conditions of C18: PLANMAP (EMPTY reads nothing, MGET uses point reads only and all keys, PREFIX/RANGE use the matching cursor plan, and the chosen access path is not replaced later), MUTSITE(e) (the point-read plan calls only Get, the empty plan nothing), ROLECHAIN (seek to the region start, stop at the first key beyond the inclusive end / without the prefix), REGIONSTICKY (leaving the region is recorded in the plan and guards every later cursor read, across calls), ROUTE/NARROWONLYKEY (equality and IN produce point regions). PREFIXALG (AND of a prefix with a prefix, range or key set reads nothing when the operands share no key), ERRPROP on the scan plans (a failed Seek or cursor creation is not followed by reads from an unpositioned cursor). SCANALG (AND of any two scan kinds reads nothing when they share no key). ATOMALG (key-pinning atoms read only the pinned region; equality and IN use point reads).",
